@@ -330,6 +330,8 @@ def main():
     if args.tier == "quick":
         # the loop-subscript family is crossed with two loop ranges for C11; C12's quick tier keeps one of them
         items = [m for m in items if not (m[0].startswith("for-sub[") and "|1:3|" not in m[0])]
+        # of the whole-matrix equation family the quick tier keeps the positions that change the functions' structure
+        items = [m for m in items if not (m[0].startswith("mat-eq[") and m[0].split("|")[-1] not in ("eq]", "init]", "ifeq]", "der]"))]
     items += [("delay", DELAY, "M"), ("attr-fun", ATTR, "M")]
     for name, cls in families.REPO_MODELS:
         if name in ("ForLoop", "FunctionCall", "DoubleFunctionCall", "IfElse", "Spring", "Aircraft", "Estimator", "ArrayExpressions", "MatrixExpressions"):
@@ -348,7 +350,10 @@ def main():
     cov["bounds"] = ("enumerated models with loops (<=3 iterations; thorough <=4 and stepped ranges) incl. scaled/reversed/non-affine loop subscripts "
                      "on vectors, fixed rows/columns and row slices of matrices, function for-statements with mutually dependent statements, "
                      "the same function called at several places on different elements/slices/rows/components (also in initial equations, "
-                     "if-branches, next to a loop), if-equations, delays; all 8 configurations; all inputs unbounded reals. "
+                     "if-branches, next to a loop), whole-matrix equations between equally shaped (square / non-square) matrices incl. transposes, matrix "
+                     "products, slices, matrix-valued functions, rows/columns of square matrices inside loops, functions with an if-statement "
+                     "(or/and/not conditions whose 0/1 encoding exceeds 1, elseif chains, several targets, nested, Boolean locals and arguments; "
+                     "inlined and not inlined), if-equations, delays; all 8 configurations; all inputs unbounded reals. "
                      f"Edit scripts: {len(SCRIPTS) + (len(SCRIPTS_THOROUGH) if args.tier == 'thorough' else 0)} read/edit/read sequences over the public Model API "
                      f"(ops {sorted(OPS)}) on {len({e[0] for e in eitems})} models, every configuration driven through the same script and "
                      "compared with configuration 0 at every read point")
